@@ -228,6 +228,7 @@ type c19 struct {
 	hist  []string
 	nQ    int
 	scrat []string
+	cwd   string // working directory to restore (set when a run changed it)
 }
 
 func (c *c19) newLut(kind string) *lut {
@@ -244,6 +245,30 @@ func (c *c19) newLut(kind string) *lut {
 		c.scrat = append(c.scrat, dir)
 		l.root = dir
 		l.loader = jet.NewOSFileSystemLoader(dir)
+	case "httpdir":
+		// httpfs over a real http.Dir; one root spelling in three is "" (documented as "."), reached by
+		// changing the working directory for the duration of the run
+		dir, err := os.MkdirTemp("", "verif-c19h-")
+		if err != nil {
+			panic(err)
+		}
+		c.scrat = append(c.scrat, dir)
+		l.root = dir
+		root := dir
+		if c.t.Choose(3) == 2 {
+			if c.cwd == "" {
+				c.cwd, _ = os.Getwd()
+			}
+			if err := os.Chdir(dir); err == nil {
+				root = ""
+				c.hist = append(c.hist, `http.Dir("")`)
+			}
+		}
+		ld, err := httpfs.NewLoader(http.Dir(root))
+		if err != nil {
+			panic(err)
+		}
+		l.loader = ld
 	case "httpfs":
 		l.sfs = &simFS{t: l.model, tape: c.t, faultIn: -1, fired: map[string]int{}}
 		ld, err := httpfs.NewLoader(l.sfs)
@@ -289,7 +314,7 @@ func (c *c19) edit(l *lut) {
 			l.model.files[p] = content
 			c.hist = append(c.hist, fmt.Sprintf("inmem.Set(%q)", sp))
 		}
-	case "os":
+	case "os", "httpdir":
 		fp := filepath.Join(l.root, filepath.FromSlash(p))
 		switch t.Choose(5) {
 		case 0, 1:
@@ -449,14 +474,17 @@ func RunC19(env *sim.Env) {
 	t := env.Tape
 	c := &c19{env: env, t: t}
 	defer func() {
+		if c.cwd != "" {
+			os.Chdir(c.cwd)
+		}
 		for _, d := range c.scrat {
 			os.RemoveAll(d)
 		}
 	}()
-	config := t.Weighted(3, 2, 3, 1, 4)
+	config := t.Weighted(3, 2, 3, 1, 4, 1)
 	switch config {
-	case 0, 1, 2: // single loader with edits
-		kind := []string{"inmem", "os", "httpfs"}[config]
+	case 0, 1, 2, 5: // single loader with edits
+		kind := map[int]string{0: "inmem", 1: "os", 2: "httpfs", 5: "httpdir"}[config]
 		l := c.newLut(kind)
 		nOps := t.Range(3, 25)
 		for i := 0; i < nOps; i++ {
@@ -538,6 +566,16 @@ func RunC19(env *sim.Env) {
 		for _, l := range luts[:nInitial] {
 			loaders = append(loaders, l.loader)
 		}
+		// sometimes the first loaders sit in an inner Multi that is itself an element of the outer
+		// one: the stack order is the same, and loaders added to the inner one later belong there
+		var inner *multi.Multi
+		nestedInner := 0
+		if nInitial >= 1 && t.Choose(3) == 2 {
+			nestedInner = t.Range(1, nInitial)
+			inner = multi.NewLoader(loaders[:nestedInner]...)
+			loaders = append([]jet.Loader{inner}, loaders[nestedInner:]...)
+			env.Stat("probe:multi_nested_in_multi", 1)
+		}
 		m := multi.NewLoader(loaders...)
 		active := luts[:nInitial]
 		kinds := []string{}
@@ -551,9 +589,26 @@ func RunC19(env *sim.Env) {
 			case t.Choose(5) < 2:
 				c.edit(luts[t.Choose(len(luts))])
 			case len(active) < len(luts) && t.Choose(6) == 5:
-				m.AddLoaders(luts[len(active)].loader)
-				active = luts[:len(active)+1]
-				c.hist = append(c.hist, "AddLoaders")
+				nl := luts[len(active)]
+				if inner != nil && t.Choose(2) == 1 {
+					// added to the INNER multi: it takes its place right after the inner's loaders,
+					// i.e. before the rest of the outer stack
+					inner.AddLoaders(nl.loader)
+					reordered := append([]*lut(nil), active[:nestedInner]...)
+					reordered = append(reordered, nl)
+					reordered = append(reordered, active[nestedInner:]...)
+					nestedInner++
+					active = reordered
+					c.hist = append(c.hist, "inner.AddLoaders")
+					env.Stat("probe:inner_multi_AddLoaders_mid_history", 1)
+					// luts order must follow so that later additions pick the right next element
+					rest := luts[len(active):]
+					luts = append(append([]*lut(nil), active...), rest...)
+				} else {
+					m.AddLoaders(nl.loader)
+					active = luts[:len(active)+1]
+					c.hist = append(c.hist, "AddLoaders")
+				}
 				env.Stat("probe:multi_AddLoaders_mid_history", 1)
 			default:
 				p := c19Path(t)
@@ -599,7 +654,7 @@ func RunC19(env *sim.Env) {
 		}
 	}
 	env.Stat("counters:queries", int64(c.nQ))
-	env.Stat("probe:config_"+[]string{"inmem", "os_real_scratch_dir", "httpfs_simfs", "embedfs_exhaustive", "multi_stack"}[config], 1)
+	env.Stat("probe:config_"+[]string{"inmem", "os_real_scratch_dir", "httpfs_simfs", "embedfs_exhaustive", "multi_stack", "httpfs_over_real_http_Dir"}[config], 1)
 	env.Res.Nontrivial = c.nQ > 0
 	env.Res.Sig = fmt.Sprintf("%016x", sim.HashString(strings.Join(c.hist, ";")+fmt.Sprint(config, c.nQ)))
 	env.Res.Sample = fmt.Sprintf("config=%d queries=%d history: %s", config, c.nQ, sim.Clip(strings.Join(c.hist, " "), 1500))
